@@ -298,6 +298,29 @@ Section DS.
     | [] => true
     | x :: r => collision_free c s x && negb (reingest s x) && no_path_collision c (fst (step c s x)) r
     end.
+
+  (* ---- vocabulary of the theorems -------------------------------------------------------------- *)
+  Definition has_rec (s : state) (id : N) : bool := match aget N.eqb (recs s) id with Some _ => true | None => false end.
+  Definition has_mem (s : state) (id : N) : bool := match aget N.eqb (mem s) id with Some _ => true | None => false end.
+
+  (* the datastore still holds the dataset (its record / in-memory entry has not been removed) *)
+  Definition held (c : cfg) (s : state) (id : N) : bool :=
+    match c_kind c with
+    | KFile => has_rec s id
+    | KMem => has_mem s id
+    | KChained => has_mem s id || has_rec s id
+    end.
+
+  (* the operation is aimed at dataset id (stores it, re-ingests it, transfers it or removes it) *)
+  Definition touches (x : op) (id : N) : bool :=
+    match x with
+    | Put k _ _ | Ingest _ k _ _ | Transfer _ k => N.eqb k id
+    | Remove _ ids => memN id ids
+    | Associate _ _ | Disassociate _ _ => false
+    end.
+
+  Definition purges (x : op) (id : N) : bool :=
+    match x with Remove true ids => memN id ids | _ => false end.
 End DS.
 
 Arguments mkState {obj bytes}.
